@@ -591,6 +591,10 @@ def render_lean(algos: list[dict], core: dict) -> tuple[str, str]:
   setConfigCanonical : Bool
   rngOther : Nat
   leakFields : Nat
+  stepEntryReads : List Nat        -- private fields (ids into the class's own field list, see facts.json) observable at step entry
+  initReadsBeforeWrite : List Nat  -- private fields read by the per-run initialisation before it writes them
+  initWrites : List Nat            -- private fields unconditionally (re)assigned by the per-run initialisation
+  ctorConst : List Nat             -- private fields assigned only in __init__, from config-independent expressions
   frameworkFieldWrites : Nat
   fitnessReads : Nat
   directionReads : Nat
@@ -601,14 +605,21 @@ deriving Repr
 """)
     L.append("def algos : List AlgoFacts := [")
     rows = []
+
+    def fid(a, key):
+        names = sorted(set(a["stepEntryReads"]) | set(a["initReadsBeforeWrite"]) | set(a["initWrites"]) | set(a["ctorConst"]))
+        a["fieldIds"] = names
+        return "[" + ", ".join(str(names.index(x)) for x in a[key]) + "]"
     for a in algos:
         kinds = [c["kind"] for c in a["ctors"]]
         rows.append("  { id := .%s, ctorsFromInit := %d, ctorsFromAgent := %d, ctorsRaw := %d, coreStores := %d, badCopyUpdates := %d, objectiveRefs := %d, "
-                    "cfgWrites := %d, taskWrites := %d, ctorReadsConfig := %d, setConfigCanonical := %s, rngOther := %d, leakFields := %d, frameworkFieldWrites := %d, "
+                    "cfgWrites := %d, taskWrites := %d, ctorReadsConfig := %d, setConfigCanonical := %s, rngOther := %d, leakFields := %d, "
+                    "stepEntryReads := %s, initReadsBeforeWrite := %s, initWrites := %s, ctorConst := %s, frameworkFieldWrites := %d, "
                     "fitnessReads := %d, directionReads := %d, whileLoops := %d, overridesInitAgent := %s, overridesGreedyAgent := %s }" % (
                         a["cls"], kinds.count("fromInit"), kinds.count("fromAgent") + kinds.count("fromBestOf"), kinds.count("raw"), len(a["coreStores"]),
                         len(a["badCopyUpdates"]), len(a["objectiveRefs"]), len(a["cfgWrites"]), len(a["taskWrites"]), len(a["ctorReadsConfig"]),
-                        "true" if a["setConfigCanonical"] else "false", len(a["rngOther"]), len(a["leakFields"]), len(a["frameworkFieldWrites"]),
+                        "true" if a["setConfigCanonical"] else "false", len(a["rngOther"]), len(a["leakFields"]),
+                        fid(a, "stepEntryReads"), fid(a, "initReadsBeforeWrite"), fid(a, "initWrites"), fid(a, "ctorConst"), len(a["frameworkFieldWrites"]),
                         len(a["fitnessReads"]), len(a["directionReads"]), len(a["whileLoops"]),
                         "true" if "_init_agent" in a["overrides"] else "false", "true" if "_greedy_select_agent" in a["overrides"] else "false"))
     L.append(",\n".join(rows))
